@@ -2,6 +2,7 @@ package gomatrixserverlib
 
 import (
 	"encoding/json"
+	"strings"
 
 	"github.com/matrix-org/gomatrixserverlib/spec"
 )
@@ -97,7 +98,8 @@ var (
 		"m.room.history_visibility": {"history_visibility"},
 	}
 	unredactableContentFieldsV5 = map[string][]string{
-		"m.room.member":             {"membership", "join_authorised_via_users_server"},
+		// NOTE: "a.b" keeps only the "b" member of the object stored under "a"
+		"m.room.member":             {"membership", "join_authorised_via_users_server", "third_party_invite.signed"},
 		"m.room.create":             {}, // NOTE: Keep all fields
 		"m.room.join_rules":         {"join_rule", "allow"},
 		"m.room.power_levels":       {"ban", "events", "events_default", "kick", "redact", "state_default", "users", "users_default", "invite"},
@@ -159,6 +161,13 @@ func redactEventJSON[T unredactableEvent](eventJSON []byte, unredactableEvent T,
 		newContent = unredactableEvent.GetContent()
 	} else {
 		for _, contentKey := range keepContentFields {
+			if parentKey, childKey, nested := strings.Cut(contentKey, "."); nested {
+				parent, _ := unredactableEvent.GetContent()[parentKey].(map[string]interface{})
+				if val, ok := parent[childKey]; ok {
+					newContent[parentKey] = map[string]interface{}{childKey: val}
+				}
+				continue
+			}
 			val, ok := unredactableEvent.GetContent()[contentKey]
 			if ok {
 				newContent[contentKey] = val
